@@ -14,7 +14,9 @@ ID = 'C16'
 RULE = ('every raster over {0,1,NaN} with at most 6 cells (quick) / 9 cells plus every {0,1} raster of 3x4, 4x3 and 4x4 (thorough), all '
         'shapes incl. 1xN / Nx1, neighbourhood 4 and 8; U-, S-, spiral-, comb-, ring-, diagonal- and checkerboard-shaped components '
         '(all 8 rotations/reflections, sizes up to 9x9, optional NaN cells); random rasters up to 12x12 over alphabets of 2-4 integers '
-        'with NaN cells; float64/float32/int64/int32; a small +-inf family (correspondence only: outside the integer-valued domain). '
+        'with NaN cells; float64/float32/int64/int32; a dtype family (int8..uint64, bool, float32: small rasters, 12..17-wide checkerboards '
+        'with more regions than an 8-bit label can count, 20..30-wide rasters, negative ids and ids > 2**24, four dimension namings, '
+        'rasters without coordinate labels, the name argument); neighbourhoods other than 4/8 must raise ValueError; a small +-inf family (correspondence only: outside the integer-valued domain). '
         'A case is non-trivial when some component has >= 3 cells or the raster has >= 2 components of the same value.')
 TRUSTED = [
     'cell values are integers of magnitude < 10^5 (or NaN): there np.isclose-style `|a-v| <= 1e-8 + 1e-5|v|` is exact equality, which is '
@@ -24,7 +26,8 @@ TRUSTED = [
     'the xarray wrapper (dims/coords/attrs/name) is checked by the Python oracle only',
 ]
 ASSUMPTIONS = ['NumPy backend; neighborhood in {4, 8}; integer-valued cells with |v| < 10^5 or NaN (the property\'s quantifier: small alphabets); '
-               'label values stay exactly representable in the raster dtype (< 2^24 cells for float32)']
+               'labels are counted in int64 for bool/integer rasters (after fixes/C16-regions-label-dtype.diff) and in the raster dtype for floats: '
+               'exact below 2^24 regions for float32']
 PARTIAL = [
     'dims / coords / attrs preservation by the xarray wrapper: Python oracle only (the Coq theorem covers the shape of the label raster)',
     'rasters with +-inf cells or integers of magnitude >= 10^5 (where the relative tolerance of the closeness test exceeds 1, e.g. '
@@ -83,14 +86,16 @@ def flood_components(data, n):
     return comp
 
 
-def check_oracle(ctx, case, src, res):
-    data = case['data']
+def check_oracle(ctx, case, src, res, key=None):
+    data = to_floats(src.data)       # the cells the implementation saw (after the cast to the raster dtype)
     n = case['n']
     what = 'regions(neighborhood=%d, %s)' % (n, case['dtype'])
 
     def bad(msg, **kw):
-        ctx.violation('oracle', '%s: %s' % (what, msg), dict(case, **kw))
+        ctx.violation('oracle', '%s: %s' % (what, msg), dict(case, **kw), key=key)
         return False
+    if res.name != (case.get('name') or 'regions'):
+        return bad('regions(name=%r): result is named %r' % (case.get('name'), res.name))
     if tuple(res.shape) != tuple(src.shape) or tuple(res.dims) != tuple(src.dims) or dict(res.attrs) != dict(src.attrs):
         return bad('shape/dims/attrs changed: %r %r %r' % (res.shape, res.dims, dict(res.attrs)))
     for d in src.dims:
@@ -126,30 +131,54 @@ def check_oracle(ctx, case, src, res):
 
 
 # --------------------------------------------------------------------------- one case
+DIMS = [('lat', 'lon'), ('y', 'x'), ('x', 'y'), ('row', 'col')]
+KEY_WRAP = 'regions-labels-wrap-in-input-dtype'
+
+
 def build(case):
     a = np.array(case['data'], dtype='float64')
-    if case['dtype'].startswith('int'):
+    if not case['dtype'].startswith('float'):
         a = np.nan_to_num(a, nan=0.0)
     a = a.astype(case['dtype'])
     rows, cols = a.shape
-    coords = {'lat': np.linspace(5, 6, rows), 'lon': np.arange(cols) * 2.0}
-    if case.get('extra_coords', (rows * 7 + cols + int(case['n'])) % 3 == 0):
-        # non-index coordinates a real raster often carries: scalar band / spatial_ref / time and a 2-D auxiliary coordinate
-        coords.update({'band': 1, 'spatial_ref': 0, 'time': np.datetime64('2020-01-02'),
-                       'xc': (('lat', 'lon'), np.arange(rows * cols, dtype='float64').reshape(rows, cols))})
-    return xr.DataArray(a, dims=['lat', 'lon'], coords=coords, attrs={'res': 1, 'crs': 'x'}, name='src')
+    dy, dx = DIMS[case.get('dims', 0)]
+    if case.get('nocoords'):
+        coords = {}
+    else:
+        coords = {dy: np.linspace(5, 6, rows), dx: np.arange(cols) * 2.0}
+        if case.get('extra_coords', (rows * 7 + cols + int(case['n'])) % 3 == 0):
+            # non-index coordinates a real raster often carries: scalar band / spatial_ref / time and a 2-D auxiliary coordinate
+            coords.update({'band': 1, 'spatial_ref': 0, 'time': np.datetime64('2020-01-02'),
+                           'xc': ((dy, dx), np.arange(rows * cols, dtype='float64').reshape(rows, cols))})
+    return xr.DataArray(a, dims=[dy, dx], coords=coords, attrs={'res': 1, 'crs': 'x'}, name='src')
+
+
+def label_capacity(dtype):
+    """largest label the raster dtype can hold exactly"""
+    if dtype == 'bool':
+        return 1
+    if dtype.startswith('float'):
+        return 2 ** 24 if dtype == 'float32' else 2 ** 53
+    return int(np.iinfo(dtype).max)
 
 
 def run_case(ctx, zonal, case, oracle=True):
     src = build(case)
     try:
-        res = zonal.regions(src, neighborhood=case['n'])
+        kw = {'name': case['name']} if case.get('name') else {}
+        res = zonal.regions(src, neighborhood=case['n'], **kw)
     except Exception as e:
         ctx.violation('oracle', 'regions raised %s: %s' % (type(e).__name__, str(e)[:200]), case)
         return None
-    if oracle:
-        check_oracle(ctx, case, src, res)
     data = to_floats(src.data)
+    if oracle:
+        key = None
+        if src.dtype.kind in 'biu' and res.dtype == src.dtype:
+            # the known defect class: more provisional labels than the raster's own dtype can count
+            ncomp = max([c for row in flood_components(data, case['n']) for c in row if c is not None] or [0])
+            if ncomp > label_capacity(case['dtype']):
+                key = KEY_WRAP
+        check_oracle(ctx, case, src, res, key=key)
     line = 'regions %d %s' % (case['n'], xvio.grid(data, 1))
     return line, to_floats(res.data)
 
@@ -332,6 +361,68 @@ def gen_dense8(ctx, count):
         yield 'dense8', dict(n=8 if i % 8 else 4, dtype='float64', data=data)
 
 
+MORE_DTYPES = ['int8', 'uint8', 'int16', 'uint16', 'uint32', 'uint64', 'bool', 'int32', 'int64', 'float32', 'float64']
+
+
+def gen_dtypes(ctx, count):
+    """every integer width / unsigned / bool / float32: small rasters, rasters with more regions than an 8-bit label can count,
+    negative and large (> 2**24) ids, other dimension names, no coordinate labels, the `name` argument, larger rasters"""
+    rng = ctx.rng
+    for i in range(count):
+        dtype = MORE_DTYPES[i % len(MORE_DTYPES)]
+        info = None if dtype.startswith('float') or dtype == 'bool' else np.iinfo(dtype)
+        pool = [0, 1, 2, 3, 9, -4, 100, -70000, 16777217, 50000000]
+        if dtype == 'bool':
+            pool = [0, 1]
+        elif dtype == 'float32':
+            pool = [v for v in pool if float(np.float32(v)) == v]
+        elif info is not None:
+            pool = [v for v in pool if info.min <= v <= info.max]
+        kind = i % 5
+        if kind == 0:        # many small regions: a checkerboard has rows*cols regions under 4-connectivity
+            rows, cols = rng.randint(12, 17), rng.randint(12, 17)
+            a, b = rng.sample(pool, 2)
+            data = [[float(a if (x + y) % 2 else b) for x in range(cols)] for y in range(rows)]
+            n = 4
+            fam = 'dtype/%s/checkerboard' % dtype
+        elif kind == 1:      # larger random raster
+            rows, cols = rng.randint(20, 30), rng.randint(20, 30)
+            alpha = rng.sample(pool, min(len(pool), rng.randint(2, 3)))
+            data = [[float(rng.choice(alpha)) for _ in range(cols)] for _ in range(rows)]
+            n = rng.choice([4, 8])
+            fam = 'dtype/%s/large' % dtype
+        else:
+            rows, cols = rng.randint(1, 6), rng.randint(1, 6)
+            alpha = rng.sample(pool, min(len(pool), rng.randint(2, 4)))
+            data = [[float(rng.choice(alpha)) for _ in range(cols)] for _ in range(rows)]
+            n = rng.choice([4, 8])
+            fam = 'dtype/%s/small' % dtype
+        case = dict(n=n, dtype=dtype, data=data, dims=i % len(DIMS))
+        if i % 7 == 0:
+            case['nocoords'] = True
+        if i % 3 == 0:
+            case['name'] = 'zones%d' % (i % 4)
+        yield fam, case
+
+
+def check_invalid_neighborhood(ctx):
+    """documented: any neighbourhood other than 4 / 8 is rejected with ValueError (never silently treated as 4)"""
+    zonal = _impl()
+    src = build(dict(n=4, dtype='float64', data=[[0.0, 1.0], [1.0, 0.0]]))
+    for n in (0, 1, 5, 6, 9, -4, 16):
+        ctx.count('invalid-neighborhood')
+        try:
+            zonal.regions(src, neighborhood=n)
+        except ValueError:
+            continue
+        except Exception as e:
+            ctx.violation('oracle', 'regions(neighborhood=%r) raised %s instead of ValueError' % (n, type(e).__name__),
+                          dict(n=n, dtype='float64', data=[[0.0, 1.0], [1.0, 0.0]], invalid_neighborhood=True))
+            continue
+        ctx.violation('oracle', 'regions(neighborhood=%r) was accepted (only 4 and 8 are neighbourhoods)' % n,
+                      dict(n=n, dtype='float64', data=[[0.0, 1.0], [1.0, 0.0]], invalid_neighborhood=True))
+
+
 def gen_inf(ctx, count):
     rng = ctx.rng
     for i in range(count):
@@ -374,6 +465,8 @@ def run(ctx):
         run_cases(ctx, gen_exhaustive(ctx, 6), light=True)
         run_cases(ctx, gen_shapes(ctx))
         run_cases(ctx, gen_random(ctx, 400))
+        run_cases(ctx, gen_dtypes(ctx, 110))
+        check_invalid_neighborhood(ctx)
         run_cases(ctx, gen_dense8(ctx, 300), light=True)
         run_cases(ctx, gen_inf(ctx, 800))
     else:
@@ -381,6 +474,8 @@ def run(ctx):
         run_cases(ctx, gen_exhaustive(ctx, 16, alphabet=(0.0, 1.0), shapes=[(3, 4), (4, 3), (4, 4), (2, 7), (7, 2)]), light=True)
         run_cases(ctx, gen_shapes(ctx))
         run_cases(ctx, gen_random(ctx, 6000))
+        run_cases(ctx, gen_dtypes(ctx, 1100))
+        check_invalid_neighborhood(ctx)
         run_cases(ctx, gen_dense8(ctx, 6000), light=True)
         run_cases(ctx, gen_inf(ctx, 6000))
     ctx.exhaustive = False
@@ -406,9 +501,15 @@ def search(ctx):
 
 def replay_case(ctx, case):
     zonal = _impl()
+    if case.get('invalid_neighborhood'):
+        ctx.case(case)
+        return check_invalid_neighborhood(ctx)
 
     def unjson(v):
         return {'nan': NAN, 'inf': float('inf'), '-inf': float('-inf')}.get(v, v) if isinstance(v, str) else float(v)
     c = dict(n=case['n'], dtype=case['dtype'], data=[[unjson(v) for v in row] for row in case['data']])
+    for k in ('dims', 'nocoords', 'name', 'extra_coords'):
+        if k in case:
+            c[k] = case[k]
     ctx.case(c)
     run_case(ctx, zonal, c, oracle=not any(math.isinf(v) for row in c['data'] for v in row))
